@@ -6,19 +6,19 @@ A function: {"name": str, "container": "top"|"method"|"arrow"|"funcexpr"|"currie
 A forest:   list of nodes;  a node: {"k": kind, "b": [forest, ...], ...}
 Kinds (b = branches):
   common   if (b=[then, elif.., else?], "else": bool)   for   while   match (b = cases)
-  py       with, awith, try (b=[body, handler, final?])
+  py       with, awith, afor (async for), try (b=[body, handler, final?])
   ts/js    dowhile, forin, forof, try
-  rs       loop, whilelet, iflet, closure
+  rs       loop, whilelet, iflet, closure, asyncblock (`async { ... }`, listed by the docs as "async blocks")
 Every block starts with one unique leaf statement, so every control structure encloses a statement.
 """
 from __future__ import annotations
 
 COMMON = ("if", "for", "while", "match")
 ONLY = {
-    "py": ("with", "awith", "try"),
+    "py": ("with", "awith", "afor", "try"),
     "ts": ("dowhile", "forin", "forof", "try"),
     "js": ("dowhile", "forin", "forof", "try"),
-    "rs": ("loop", "whilelet", "iflet", "closure"),
+    "rs": ("loop", "whilelet", "iflet", "closure", "asyncblock"),
 }
 LANGS = ("py", "ts", "js", "rs")
 EXT = {"py": ".py", "ts": ".ts", "js": ".js", "rs": ".rs"}
@@ -98,6 +98,8 @@ def _py_forest(w, forest, ind):
             _py_block(w, f"with ctx{j}() as r{j}:", b[0], ind)
         elif k == "awith":
             _py_block(w, f"async with ctx{j}() as r{j}:", b[0], ind)
+        elif k == "afor":
+            _py_block(w, f"async for i{j} in xs{j}:", b[0], ind)
         elif k == "try":
             _py_block(w, "try:", b[0], ind)
             _py_block(w, "except Exception:", b[1], ind)
@@ -113,7 +115,7 @@ def render_py(funcs, terse=False):
     headers = {}
     in_class = False
     for f in funcs:
-        is_async = "awith" in kinds_in(f["body"])
+        is_async = bool({"awith", "afor"} & kinds_in(f["body"]))
         kw = "async def" if is_async else "def"
         if f["container"] == "method":
             if not in_class:
@@ -324,6 +326,10 @@ def _rs_forest(w, forest, ind):
                 _rs_forest(w, br, ind + 2)
                 w.add(ind + 1, "}")
             w.add(ind, "}")
+        elif k == "asyncblock":
+            w.add(ind, f"let fut{j} = async move {{")
+            _rs_forest(w, b[0], ind + 1)
+            w.add(ind, "};")
         elif k == "closure":
             if w.terse and not b[0]:
                 w.add(ind, f"let g{j} = |p{j}: i32| f{w.fresh()}(p{j});")  # closure without a block
